@@ -410,7 +410,7 @@ func c02casesChild(raw json.RawMessage, scratch string) {
 
 func c02(c *wk.Ctx) {
 	r := c.R
-	r.Rule = "cross product (rotating schedule + PRNG) of value kind x physical encoding x element count {1,2,99,100,101,250} x key_exists {none,rewrite,ignore} x pre-existing target key {none,same type,other type} x target.version strings (fetched or typed, with the threshold/replace pairing SanitizeOptions produces) x big_key_threshold around the payload size x expiry {none,future,past} x time shift {0,+-1h} x hash-tag replacement x idle/freq; entries come from the real loader; after utils.RestoreRdbEntry the whole model database is compared with the expected one (value by logical equality, TTL by a load-independent interval). distinct = (route, encoding, policy, pre-existing, replace, expiry, version, elements)"
+	r.Rule = "cross product (rotating schedule + PRNG) of value kind x physical encoding x element count {1,2,99,100,101,250} x key_exists {none,rewrite,ignore} x pre-existing target key {none,same type,other type} x target.version strings (fetched or typed, with the threshold/replace pairing SanitizeOptions produces) x big_key_threshold around the payload size x expiry {none,future,past} x time shift {0,+-1h} x hash-tag replacement x idle/freq; entries come from the real loader; after utils.RestoreRdbEntry the whole model database is compared with the expected one (value by logical equality, TTL by a load-independent interval); concurrent stage: 2-16 workers with their own connections restore disjoint keys into one model target at the same time, half of the keys being busy (REPLACE, or delete-and-retry on a 2.8 target), and every key must end up with its own entry's value. distinct = (route, encoding, policy, pre-existing, replace, expiry, version, elements)"
 	if msg := refrdb.SelfTest(c.Seed, 200); msg != "" {
 		r.Inconcl("harness self-test failed: " + msg)
 		return
@@ -457,6 +457,16 @@ func c02(c *wk.Ctx) {
 		}
 		r.Violationf("C02|route=rump-bigkey|outcome=process-aborted", json.RawMessage(d.Desc), "utils.RestoreBigkey ended the process (exit %d) although every key it was asked to write was free or to be rewritten: %s", d.Result.Exit, firstPanicLine(d.Result.Stderr))
 	})
+	nconc := c.N(40, 800)
+	wk.RunBatch(c, "c02conc", 7000000, 7000000+nconc, nil, 20*time.Minute, func(d wk.Death) {
+		if d.Result.TimedOut {
+			r.Inconcl("C02 concurrent-workers child watchdog")
+			return
+		}
+		r.Violationf("C02|route=plain|concurrent-workers|outcome=process-aborted", json.RawMessage(d.Desc), "concurrent workers restoring disjoint keys ended the process (exit %d): %s", d.Result.Exit, firstPanicLine(d.Result.Stderr))
+	})
+	r.Floor("concurrent_worker_groups", 30)
+	r.Floor("concurrently_restored_keys_checked", 2000)
 	r.Floor("route:rump-bigkey-sequences", 150)
 	for _, rt := range []string{"plain", "bigkey", "quicklist", "fallback", "chunked"} {
 		r.Floor("route:"+rt, 3)
